@@ -139,10 +139,9 @@ var refOpNames = []string{"streq", "contains", "beginsWith", "endsWith", "within
 	"unconditionalMatch", "noMatch", "strmatch"}
 
 func refAtoi(s string) int {
-	n, err := strconv.Atoi(s)
-	if err != nil {
-		return 0
-	}
+	// documented as integer comparison; for operands that are not integers the engine uses what
+	// strconv.Atoi returns along with its error (0, or the saturated value on overflow)
+	n, _ := strconv.Atoi(s)
 	return n
 }
 
